@@ -1868,6 +1868,18 @@ def wrap_in_cse(expr, prefix=None):
     if isinstance(expr, (Variable, Subscript)) or is_constant(expr):
         return expr
 
+    # containers are not wrapped whole, their entries are
+    from pymbolic.geometric_algebra import MultiVector
+    if isinstance(expr, MultiVector):
+        return make_common_subexpression(expr, prefix)
+    try:
+        import numpy
+    except ImportError:
+        pass
+    else:
+        if isinstance(expr, numpy.ndarray):
+            return make_common_subexpression(expr, prefix)
+
     if isinstance(expr, CommonSubexpression):
         if prefix is None:
             return expr
